@@ -61,7 +61,7 @@ fn exercise(bytes: &[u8]) -> Value {
                 match firsterr { Some(e) => Err(e), None => Ok(()) }
             });
         }
-        run("write", &mut || { let mut o = vec![]; p.write(&mut o).map_err(|e| e.to_string()) });
+        run("write", &mut || { let mut o = vec![]; p.write(&mut Plain(&mut o)).map_err(|e| e.to_string()) });
     }
     json!({"ops": ops, "worst_peak": worst, "accepted": pkg.is_some()})
 }
@@ -183,7 +183,7 @@ pub fn run(args: &Args) {
     cfg.signer = Some("ed25519".into());
     if let Ok(Ok(p)) = guarded(|| gen_::build(&cfg, &wd)) {
         let mut b = vec![];
-        p.write(&mut b).unwrap();
+        p.write(&mut Plain(&mut b)).unwrap();
         bases.push(("built".into(), b));
     }
     bases.truncate(if thorough { 4 } else { 3 });
